@@ -484,6 +484,9 @@ class VanillaSimulaQronExecutioner(Executor):
                 request=create_request,
                 remote=True,
             )
+            # Both qubits of the pair are measured and removed: the physical address reserved
+            # for the pair (by _do_create_epr) backs no qubit and is never mapped, so release it
+            self._used_physical_qubit_addresses.discard(qubit_id)
             # Prepare ent_info header with entanglement information
             ent_info = LinkLayerOKTypeM(
                 type=ReturnType.OK_M,
@@ -803,6 +806,9 @@ class VanillaSimulaQronExecutioner(Executor):
             self._logger.debug(
                 f"Measure directly EPR request received for EPR socket ID {epr_socket_id}."
             )
+            # No qubit comes with a measure directly record: release the physical address
+            # reserved for this pair (by _do_recv_epr), it will never be mapped
+            self._used_physical_qubit_addresses.discard(qubit_id)
 
         self._handle_epr_response(response=ent_info)
 
